@@ -52,9 +52,12 @@ def gen(ctx):
     model = str(rng.choice(['compass', 'triangle']))
     from scipy.spatial.distance import pdist
     dmax = float(pdist(coords).max())
-    bw = rng.choice(['q33', 'q10', 'q75', 'num', 'num', 'huge'])
+    bw = rng.choice(['q33', 'q10', 'q75', 'num', 'num', 'huge', 'wide', 'wide'])
     if bw == 'num':
         bw = float(rng.uniform(0.05, 0.9) * dmax)
+    elif bw == 'wide':
+        # wider than the largest distance but still binding: the limit is bandwidth / 2
+        bw = float(rng.uniform(1.02, 1.95) * dmax)
     elif bw == 'huge':
         bw = float(dmax * 3)
     else:
